@@ -1,7 +1,318 @@
-import NimaVerif.Model.Edit
-/-! # C08 — placeholder until the theorems are in (see below). -/
+import NimaVerif.Lemmas.EditKeeps
+/-!
+# C08 — a rejected edit is loud and leaves the document exactly as it was
+
+The model (`Model/Edit.lean`) is state-returning: `EditM α = Doc → Except Err α × Doc` hands back the
+(possibly already mutated) document also when the operation fails, with the writes in the order of
+the Python. "Rejected edits change nothing" is therefore a statement about the second component,
+and its proof obligation is *no write precedes a reachable throw*.
+
+SPEC vocabulary (`Model/EditSpec.lean`): `Doc.same d d'` (equal up to the allocation counter
+`next`, which is not document state), `WF d` (no scratch set left over, the target is an attribute
+set — both decidable, both invariants of every operation: `wf_preserved`), `Op`, `runOps`
+(histories; a rejected step does not stop the history), `finalDoc`, `lastGood`, `goodOps`.
+
+All statements quantify over every document, path text, value and history.
+-/
 namespace Nima.C08
-theorem invalid_value_rejected_unchanged (p : Text) (d : Doc) :
-    setValue p .invalid d = (.error .value, d) ∧ setValue p .empty d = (.error .value, d) := by
-  constructor <;> rfl
+
+open Nima Nima.Node Nima.EditM Nima.EditFail
+
+/-! ## (a) a rejected edit leaves the document as it was -/
+
+/-- A rejected `set` returns the document it was given, up to the allocation counter — whatever
+    the path (plain, nested, attrpath family, quoted, scoped, malformed) and the value. -/
+theorem set_fail_unchanged (d : Doc) (p : Text) (v : ValueArg) (e : Err) (d' : Doc)
+    (hwf : WF d) (h : setValue p v d = (.error e, d')) : d.same d' :=
+  (setValue_error (WF.scratch hwf) h).1
+
+/-- A rejected `rm` returns the document it was given, up to the allocation counter. -/
+theorem rm_fail_unchanged (d : Doc) (p : Text) (e : Err) (d' : Doc)
+    (hwf : WF d) (h : removeValue p d = (.error e, d')) : d.same d' :=
+  (removeValue_error (WF.scratch hwf) h).1
+
+/-- Without a scope selector nothing at all is spent: the rejected `set` returns *exactly* its
+    input, for every document (no well-formedness needed). -/
+theorem set_fail_exact (d : Doc) (p : Text) (v : ValueArg) (e : Err) (d' : Doc)
+    (hp : p.head? ≠ some '@') (h : setValue p v d = (.error e, d')) : d' = d :=
+  setValue_error_exact (splitScopeNpath_plain hp) h
+
+theorem rm_fail_exact (d : Doc) (p : Text) (e : Err) (d' : Doc)
+    (hp : p.head? ≠ some '@') (h : removeValue p d = (.error e, d')) : d' = d :=
+  removeValue_error_exact (splitScopeNpath_plain hp) h
+
+/-- Exact equality for *every* path is false of the model, for a reason that is not document
+    state: a scoped edit allocates the identity of its scratch `AttributeSet` before the
+    attrset-level operation runs, so `next` has advanced when that operation is rejected. This is
+    why (a) is stated with `Doc.same`. (Python: `AttributeSet(values=layer["scope"], …)` is
+    constructed and dropped.) -/
+def fail_exact_full : Prop :=
+  ∀ (d : Doc) (p : Text) (v : ValueArg) (e : Err) (d' : Doc),
+    WF d → setValue p v d = (.error e, d') → d' = d
+
+/-- `let v = 1; in { a = v; }` -/
+def exLet : Doc :=
+  { target := .set 0 [.bind 1 "a".toList false (.ident "v".toList) [] []] [] true false,
+    scope := [.bind 2 "v".toList false (.atom "1".toList) [] []],
+    next := 3 }
+
+theorem cex_scoped_allocates : ¬ fail_exact_full := by
+  intro h
+  have h1 : setValue "@v.w".toList (.one (.atom "3".toList)) exLet =
+      (.error .value, { exLet with next := 4 }) := rfl
+  have := congrArg Doc.next (h _ _ _ _ _ (by decide) h1)
+  exact absurd this (by decide)
+
+/-! ### the key lemmas: no write precedes a reachable throw -/
+
+/-- `_set_attrpath_value`: once a segment is missing the rest of the walk runs on a fresh empty
+    set; it cannot fail and ends on an empty set. -/
+theorem attrpath_walk_on_fresh_set_cannot_fail (cur : Node) (segs : List Text) (d : Doc)
+    (hs : cur.isSet = true) (he : cur.setValues = []) :
+    ∃ c d', setAttrpathWalk cur segs d = (.ok c, d') ∧ c.isSet = true ∧ c.setValues = [] :=
+  setAttrpathWalk_empty segs cur d hs he
+
+/-- `_set_attrpath_value`'s walk: a failure returns the state untouched; a success either wrote
+    nothing or ended on a set this walk created (which is empty). -/
+theorem attrpath_walk_fails_before_first_write (cur : Node) (segs : List Text) (d : Doc) :
+    (∀ e d', setAttrpathWalk cur segs d = (.error e, d') → d' = d) ∧
+    (∀ c d', setAttrpathWalk cur segs d = (.ok c, d') →
+      d' = d ∨ (c.isSet = true ∧ c.setValues = [])) :=
+  ⟨fun _ _ h => ((setAttrpathWalk_spec segs cur d _ _ h).1 _ rfl).1,
+   fun _ _ h => ((setAttrpathWalk_spec segs cur d _ _ h).2 _ rfl).2⟩
+
+/-- `_resolve_npath_parent(create_missing=True)` on a fresh empty set cannot fail. -/
+theorem parent_walk_on_fresh_set_cannot_fail (cur : Node) (segs : List Text) (d : Doc)
+    (hs : cur.isSet = true) (he : cur.setValues = []) :
+    ∃ c d', resolveParentWalk true cur segs d = (.ok c, d') ∧ c.isSet = true ∧ c.setValues = [] :=
+  resolveParentWalk_empty segs cur d hs he
+
+/-- `_resolve_npath_parent`: a failure returns the state untouched (both modes); a success either
+    wrote nothing or ended on a set this walk created. -/
+theorem parent_walk_fails_before_first_write (cm : Bool) (cur : Node) (segs : List Text) (d : Doc) :
+    (∀ e d', resolveParentWalk cm cur segs d = (.error e, d') → d' = d) ∧
+    (∀ c d', resolveParentWalk cm cur segs d = (.ok c, d') →
+      d' = d ∨ (c.isSet = true ∧ c.setValues = [])) :=
+  ⟨fun _ _ h => ((resolveParentWalk_spec cm segs cur d _ _ h).1 _ rfl).1,
+   fun _ _ h => ((resolveParentWalk_spec cm segs cur d _ _ h).2 _ rfl).2⟩
+
+/-- `_set_value_in_attrset` / `_remove_value_in_attrset` on any set object, in any state:
+    a failure returns the state untouched. -/
+theorem attrset_level_fail_unchanged (ts : Node) (wl : Bool) (p : Text) (v : Node) (d : Doc) :
+    (∀ e d', setValueInAttrset ts wl p v d = (.error e, d') → d' = d) ∧
+    (∀ e d', removeValueInAttrset ts p d = (.error e, d') → d' = d) :=
+  ⟨fun _ _ h => (setValueInAttrset_clean ts wl p v _ _ _ h).1,
+   fun _ _ h => (removeValueInAttrset_clean ts p _ _ _ h).1⟩
+
+/-- The scoped branch that creates a new `let` layer clears `before`/`after` of the target
+    *before* the attrset-level operation runs; that operation cannot fail on the fresh empty
+    scratch set once the path text has been accepted (it was checked first). -/
+theorem fresh_layer_operation_cannot_fail (sid : Nat) (p : Text) (v : Node) (segs : List Text) (d : Doc)
+    (hf : formatNPath currentAnchor p = .ok segs) :
+    ∃ d', setValueInAttrset (.set sid [] [] true false) false p v d = (.ok (), d') := by
+  obtain ⟨a, d', h⟩ := setValueInAttrset_empty_noFail (.set sid [] [] true false) false p v segs hf rfl rfl d
+  exact ⟨d', h⟩
+
+/-! ### mapping operations -/
+
+/-- `AttributeSet.__setitem__` is rejected only for a receiver that is not a set object, and then
+    without a write; on a set object it always succeeds. -/
+theorem setitem_fail_unchanged (s : Node) (key : Text) (v : Node) (d : Doc) (e : Err) (d' : Doc)
+    (h : setSetItem s key v d = (.error e, d')) : d' = d ∧ s.isSet = false := by
+  obtain ⟨h1, h2, _⟩ := setSetItem_error h
+  refine ⟨h1, ?_⟩
+  cases hs : s.isSet with
+  | false => rfl
+  | true =>
+    obtain ⟨i, hi⟩ := isSet_setSid s hs
+    rw [hi] at h2; cases h2
+
+theorem setitem_on_set_succeeds (s : Node) (key : Text) (v : Node) (d : Doc) (hs : s.isSet = true) :
+    ∃ d', setSetItem s key v d = (.ok (), d') := by
+  obtain ⟨a, d', h⟩ := setSetItem_noFail s key v hs d
+  exact ⟨d', h⟩
+
+/-- `AttributeSet.__delitem__`: a rejection is a `KeyError` and writes nothing. -/
+theorem delitem_fail_unchanged (s : Node) (key : Text) (d : Doc) (e : Err) (d' : Doc)
+    (h : setDelItem s key d = (.error e, d')) : d' = d ∧ e = .key :=
+  setDelItem_error h
+
+/-- `Scope.__setitem__` never fails. -/
+theorem scope_setitem_succeeds (key : Text) (v : Node) (d : Doc) :
+    ∃ d', scopeSetItem key v d = (.ok (), d') :=
+  scopeSetItem_ok key v d
+
+/-- `Scope.__delitem__`: a rejection is a `KeyError` and writes nothing. -/
+theorem scope_delitem_fail_unchanged (key : Text) (d : Doc) (e : Err) (d' : Doc)
+    (h : scopeDelItem key d = (.error e, d')) : d' = d ∧ e = .key :=
+  scopeDelItem_error h
+
+/-! ## (b) a rejected edit is loud in the documented way: `KeyError` or `ValueError` -/
+
+/-- FULL statement: every exception escaping `set` is a `KeyError` or a `ValueError`. -/
+def error_class_full : Prop :=
+  ∀ (d : Doc) (p : Text) (v : ValueArg) (e : Err) (d' : Doc),
+    WF d → setValue p v d = (.error e, d') → e = .key ∨ e = .value
+
+def rm_error_class_full : Prop :=
+  ∀ (d : Doc) (p : Text) (e : Err) (d' : Doc),
+    WF d → removeValue p d = (.error e, d') → e = .key ∨ e = .value
+
+/-- a document whose target resolution dereferences an unresolvable identifier (`x: x`) -/
+def exResolution : Doc := { noTarget := some .resolution }
+
+/-- Known finding C08-fixed-resolution-error (repaired in /repo commit 254c762): when
+    `ResolutionError` escapes target resolution it is neither class. Kept as documentation of the
+    class the partial theorem excludes. -/
+theorem cex_resolution : ¬ error_class_full := by
+  intro h
+  have h1 : setValue "a".toList (.one (.atom "1".toList)) exResolution =
+      (.error .resolution, exResolution) := rfl
+  have := h _ _ _ _ _ (by decide) h1
+  revert this; decide
+
+theorem cex_resolution_rm : ¬ rm_error_class_full := by
+  intro h
+  have h1 : removeValue "a".toList exResolution = (.error .resolution, exResolution) := rfl
+  have := h _ _ _ _ (by decide) h1
+  revert this; decide
+
+/-- Outside that class (decidable side condition on the document), only `KeyError` and
+    `ValueError` escape `set` — in particular none of the model's `.internal _` branches
+    (IndexError, AssertionError, not-a-set, shape) is reachable on a well-formed document. -/
+theorem error_class_partial (d : Doc) (p : Text) (v : ValueArg) (e : Err) (d' : Doc)
+    (hwf : WF d) (hres : d.noTarget ≠ some .resolution)
+    (h : setValue p v d = (.error e, d')) : e = .key ∨ e = .value :=
+  (setValue_error (WF.scratch hwf) h).2 hwf.2 hres
+
+theorem rm_error_class_partial (d : Doc) (p : Text) (e : Err) (d' : Doc)
+    (hwf : WF d) (hres : d.noTarget ≠ some .resolution)
+    (h : removeValue p d = (.error e, d')) : e = .key ∨ e = .value :=
+  (removeValue_error (WF.scratch hwf) h).2 hwf.2 hres
+
+/-- Total form: whatever the document's `noTarget`, an exception escaping `set`/`rm` is a
+    `KeyError`, a `ValueError`, or the `ResolutionError` of target resolution — never one of the
+    model's internal failure modes (IndexError, AssertionError, not-a-set, shape): those branches
+    are dead code on well-formed documents. -/
+theorem error_class_total (d : Doc) (op : Op) (e : Err) (d' : Doc) (hwf : WF d)
+    (h : op.run d = (.error e, d')) :
+    e = .key ∨ e = .value ∨ (e = .resolution ∧ d.noTarget = some .resolution) := by
+  by_cases hres : d.noTarget = some .resolution
+  · -- target resolution raises before the document is looked at
+    have hrt : resolveTarget d = .error .resolution := by simp [resolveTarget, hres]
+    cases op with
+    | set p v =>
+      cases v with
+      | empty => cases h; exact Or.inr (Or.inl rfl)
+      | invalid => cases h; exact Or.inr (Or.inl rfl)
+      | one n' =>
+        simp only [Op.run, setValue, hres, hrt] at h
+        split at h
+        · rename_i hs
+          cases h
+          exact Or.inr (Or.inl (splitScopeNpath_error p _ hs))
+        · cases h; exact Or.inr (Or.inr ⟨rfl, hres⟩)
+        · cases h; exact Or.inr (Or.inr ⟨rfl, hres⟩)
+    | rm p =>
+      simp only [Op.run, removeValue, hres, hrt] at h
+      split at h
+      · rename_i hs
+        cases h
+        exact Or.inr (Or.inl (splitScopeNpath_error p _ hs))
+      · cases h; exact Or.inr (Or.inr ⟨rfl, hres⟩)
+      · cases h; exact Or.inr (Or.inr ⟨rfl, hres⟩)
+  · rcases (Op.run_error (WF.scratch hwf) h).2 hwf.2 hres with h1 | h1
+    · exact Or.inl h1
+    · exact Or.inr (Or.inl h1)
+
+theorem no_internal_error (d : Doc) (op : Op) (e : Err) (d' : Doc) (hwf : WF d)
+    (h : op.run d = (.error e, d')) : ∀ n, e ≠ .internal n := by
+  intro n hn
+  rcases error_class_total d op e d' hwf h with h1 | h1 | ⟨h1, _⟩ <;> rw [hn] at h1 <;> cases h1
+
+/-! ## (c) histories: rejected operations are invisible to later ones -/
+
+/-- Well-formedness is established once (the parser yields no scratch set and
+    `_resolve_target_set` an `AttributeSet`) and kept by every operation, accepted or rejected;
+    `noTarget` never changes. -/
+theorem wf_preserved (d : Doc) (op : Op) (r : Except Err Unit) (d' : Doc) (hwf : WF d)
+    (h : op.run d = (r, d')) : WF d' ∧ d'.noTarget = d.noTarget :=
+  ⟨WF.of_keeps hwf (Op.run_keeps op d r d' h), (Op.run_keeps op d r d' h).1⟩
+
+theorem history_wf (d : Doc) (ops : List Op) (hwf : WF d) :
+    ∀ r ∈ runOps ops d, WF r.2 ∧ r.2.noTarget = d.noTarget :=
+  runOps_wf ops d hwf
+
+/-- Every rejected step of every history returns the state that step started in (up to `next`),
+    with a `KeyError`/`ValueError` (unless target resolution itself raises `ResolutionError`). -/
+theorem history_failed_step_unchanged (d : Doc) (ops : List Op) (i : Nat) (e : Err) (d' : Doc)
+    (hwf : WF d) (h : (runOps ops d)[i]? = some (.error e, d')) :
+    (finalDoc d ((runOps ops d).take i)).same d' ∧
+    (d.noTarget ≠ some .resolution → e = .key ∨ e = .value) := by
+  obtain ⟨h1, h2, h3⟩ := runOps_failed_step ops d i e d' hwf h
+  exact ⟨h1.1, fun hres => h1.2 h3.2 (by rw [h2]; exact hres)⟩
+
+/-- Hence the document any later operation sees is the one the last accepted operation left
+    (or the initial one), up to `next`. -/
+theorem history_sees_last_success (d : Doc) (ops : List Op) (hwf : WF d) :
+    (lastGood d (runOps ops d)).same (finalDoc d (runOps ops d)) :=
+  runOps_lastGood ops d d (Doc.same_refl d) hwf
+
+/-- DESIGN §8/C08 `run d ops = run d (filter succeeded ops)`, literally, for histories without
+    scope selectors: running only the accepted operations yields exactly the accepted steps of the
+    full run — same outcomes, same documents, same identities. No well-formedness needed. -/
+theorem history_filter_plain (d : Doc) (ops : List Op) (hp : ∀ op ∈ ops, op.plain) :
+    runOps (goodOps ops d) d = (runOps ops d).filter isOk :=
+  runOps_goodOps ops d hp
+
+/-- The literal equation for *all* histories is false of the model only through identity
+    numbering: a rejected scoped operation has spent one identity (see `cex_scoped_allocates`), so
+    objects created afterwards are numbered differently. Up to `next` the states agree
+    (`history_sees_last_success`). -/
+def history_filter_full : Prop :=
+  ∀ (d : Doc) (ops : List Op), WF d → runOps (goodOps ops d) d = (runOps ops d).filter isOk
+
+def exOps : List Op :=
+  [.set "@v.w".toList (.one (.atom "3".toList)), .set "b".toList (.one (.atom "1".toList))]
+
+theorem cex_history_filter_ids : ¬ history_filter_full := by
+  intro h
+  have := congrArg (fun t => t.map (·.2.next)) (h exLet exOps (by decide))
+  exact absurd this (by decide)
+
+/-! ## Non-vacuity -/
+
+/-- `{ a.b = 1; x = 2; }` : two bindings, one of them an attrpath family -/
+def exLeafB : Node := .bind 3 "b".toList false (.atom "1".toList) [] []
+def exDoc : Doc :=
+  { target := .set 0
+      [.bind 1 "a".toList true (.set 2 [exLeafB] [] true false) [] [],
+       .bind 4 "x".toList false (.atom "2".toList) [] []]
+      [.entry ["a".toList, "b".toList] exLeafB none none,
+       .bind 4 "x".toList false (.atom "2".toList) [] []]
+      true false,
+    next := 5 }
+
+example : WF exDoc ∧ exDoc.noTarget ≠ some .resolution := by decide
+example : WF exLet ∧ exLet.noTarget ≠ some .resolution := by decide
+-- `set a.b.c 3` runs into the non-set `b = 1` inside the family: ValueError, nothing changed
+example : setValue "a.b.c".toList (.one (.atom "3".toList)) exDoc = (.error .value, exDoc) := rfl
+-- `set x.y 3` runs into the non-set `x = 2` on the plain nested path
+example : setValue "x.y".toList (.one (.atom "3".toList)) exDoc = (.error .value, exDoc) := rfl
+example : removeValue "a.c".toList exDoc = (.error .key, exDoc) := rfl
+example : removeValue "x.y.z".toList exDoc = (.error .value, exDoc) := rfl
+example : setValue "a..b".toList (.one (.atom "3".toList)) exDoc = (.error .value, exDoc) := rfl
+-- the same walks do write when nothing is in the way: two intermediate sets and a leaf are created
+example : (setValue "a.c.d".toList (.one (.atom "3".toList)) exDoc).1 = .ok () ∧
+    (setValue "a.c.d".toList (.one (.atom "3".toList)) exDoc).2.next = 8 := ⟨rfl, rfl⟩
+-- scoped: rejected on the let layer, document the same up to `next`; missing layer: exactly the same
+example : setValue "@v.w".toList (.one (.atom "3".toList)) exLet =
+    (.error .value, { exLet with next := 4 }) := rfl
+example : removeValue "@zz".toList exLet = (.error .key, { exLet with next := 4 }) := rfl
+example : setValue "@@v".toList (.one (.atom "3".toList)) exLet = (.error .value, exLet) := rfl
+-- a history with rejected steps in the middle
+example : (runOps [.rm "zz".toList, .set "x".toList (.one (.atom "7".toList)),
+    .set "x.y".toList (.one (.atom "3".toList)), .rm "a.b".toList, .rm "x.y".toList] exDoc).map (·.1) =
+    [.error .key, .ok (), .error .value, .ok (), .error .value] := rfl
+
 end Nima.C08
